@@ -70,7 +70,8 @@ def gen_cases(ctx):
              "nkp": int(rng.choice([1, 2, 5])), "activation": str(rng.choice(["relu6", "sigmoid"])),
              "reduction": str(rng.choice(["mean", "geometric_mean", "none"])), "sparsity": sf,
              "scaling": str(rng.choice(["none", "positive", "exp", "fixed", "learned_shared", "learned_per_input"])),
-             "mag": float(rng.choice([1.0, 30.0, 1e2, 1e4])), "seed": int(rng.randint(2**31 - 1)), "exec": modes.pick(rng, (0.5, 0.2, 0.3))}
+             "mag": float(rng.choice([1.0, 30.0, 1e2, 1e4])), "seed": int(rng.randint(2**31 - 1)), "exec": modes.pick(rng, (0.5, 0.2, 0.3)),
+             "dtype": "float64" if rng.rand() < .15 else "float32"}
 
 
 def _run_pwl(ctx, case, st):
@@ -252,18 +253,24 @@ def _run_cdf(ctx, case, st):
     eps = 1e-8
   else:
     st_ = case["scaling"] if case["scaling"] in ("fixed", "learned_shared", "learned_per_input") else "fixed"
+    dt = case.get("dtype", "float32")
+    ctx.cls("cdf:dtype=" + dt)
     layer = tfl.layers.CDF(num_keypoints=nkp, units=units, activation=act, reduction=red, sparsity_factor=sf,
                            input_scaling_type=st_, input_scaling_init=float(rng.choice([0.1, 1.0, 20.0])),
-                           input_scaling_monotonicity="increasing")
-    layer(tf.constant(x))
+                           input_scaling_monotonicity="increasing", **({} if dt == "float32" else {"dtype": dt}))
+    layer(tf.constant(x.astype(dt)))
     layer.kernel.assign((rng.normal(size=layer.kernel.shape) * mag).astype(np.float32))
     if st_ != "fixed":
       v = (rng.normal(size=layer.input_scaling.shape) * 5).astype(np.float32)
       layer.input_scaling.assign(v)
-      layer.input_scaling.assign(layer.input_scaling.constraint(layer.input_scaling))   # NonNeg, as training would
+      if dt == "float32":
+        layer.input_scaling.assign(layer.input_scaling.constraint(layer.input_scaling))   # NonNeg, as training would
+      else:
+        # tf_keras' NonNeg casts its mask to floatx (float32) and cannot be applied to a float64 weight: not lattice code
+        layer.input_scaling.assign(np.maximum(v, 0))
 
     def f(xx):
-      return modes.call(tf, ex, layer, tf.constant(np.asarray(xx, dtype=np.float32))).numpy().astype(np.float64)
+      return modes.call(tf, ex, layer, tf.constant(np.asarray(xx, dtype=np.float32).astype(dt))).numpy().astype(np.float64)
     eps = 1e-3
   y = f(x)
   lo, hi = 0.0, 1.0
